@@ -599,7 +599,6 @@ func sortKeyFromMapKey(p *Prog, mr mapRange, ap *ssa.Call, sc *ssa.Call, kExt ss
 	return false, "the slice built from the map is sorted by " + strings.Join(names, ", ") + " only, which is not filled from the map's key but from its values: elements that agree there (several keys sharing one value) keep the map's iteration order, so the output differs from run to run"
 }
 
-
 // ---------- C13.locks / atomic ----------
 
 var lockCache = map[*Prog]*lockInfo{}
